@@ -395,16 +395,95 @@ def psd(ctx, n):
     return mm(L, tr(L))
 
 
-def make_lq(LQ, Q, R, A, B, C, N, beta, cross, T=None, Rf=None):
+class Forms:
+    """hands the same matrix to the library in one of the argument forms its docs allow (C/F order, strided view,
+    nested list, int / float32 dtype when exact, Python scalar for 1x1, flat 1-D for a single row) and remembers
+    every array handed out so that 'inputs bitwise unchanged' and aliasing can be checked afterwards"""
+
+    def __init__(self, ctx, enabled=True):
+        self.ctx, self.rng, self.enabled = ctx, ctx.rng, enabled
+        self.inputs = []          # (name, array, bytes at hand-out)
+
+    def vary(self, name, Mx, flat_ok=False, scalar_ok=True, int_ok=True, f32_ok=True, list_ok=True, force=None):
+        a = tofloat(Mx)
+        r, c = a.shape
+        opts = ["c", "c", "f", "strided"]
+        if list_ok:
+            opts.append("list")
+        if int_ok and np.all(a == np.round(a)):
+            opts.append("int")
+        if f32_ok and np.all(a.astype(np.float32).astype(np.float64) == a):
+            opts.append("f32")
+        if scalar_ok and (r, c) == (1, 1):
+            opts += ["scalar", "scalar"]
+        if flat_ok and r == 1:
+            opts += ["flat", "flat"]
+        kind = force if force in opts else (self.rng.choice(opts) if self.enabled else "c")
+        self.ctx.count("form:" + kind)
+        if kind == "c":
+            out = np.ascontiguousarray(a)
+        elif kind == "f":
+            out = np.asfortranarray(a)
+        elif kind == "strided":
+            big = np.full((2 * r + 1, 3 * c + 2), 7.5)
+            big[1:2 * r + 1:2, 2:3 * c + 2:3] = a
+            out = big[1:2 * r + 1:2, 2:3 * c + 2:3]
+        elif kind == "list":
+            return [[float(v) for v in row] for row in a]
+        elif kind == "int":
+            out = a.astype(np.int64)
+        elif kind == "f32":
+            out = a.astype(np.float32)
+        elif kind == "scalar":
+            v = float(a[0, 0])
+            return int(v) if (v == int(v) and self.rng.random() < 0.5) else v
+        else:   # flat
+            out = np.ascontiguousarray(a[0, :]) if self.rng.random() < 0.6 else [float(v) for v in a[0, :]]
+            if isinstance(out, list):
+                return out
+        self.inputs.append((name, out, out.tobytes()))
+        return out
+
+    def changed(self):
+        """names of the handed-out arrays whose bytes differ now"""
+        return [nm for nm, arr, snap in self.inputs if arr.tobytes() != snap]
+
+    def arrays(self):
+        return [(nm, arr) for nm, arr, _ in self.inputs]
+
+
+def make_lq(LQ, Q, R, A, B, C, N, beta, cross, T=None, Rf=None, forms=None):
+    if forms is None:
+        kw = {}
+        if C is not None:
+            kw["C"] = tofloat(C)
+        if cross:
+            kw["N"] = tofloat(N)
+        if T is not None:
+            kw["T"] = T
+            kw["Rf"] = tofloat(Rf)
+        return LQ(tofloat(Q), tofloat(R), tofloat(A), tofloat(B), beta=float(beta), **kw)
+    n, k = len(R), len(Q)
     kw = {}
     if C is not None:
-        kw["C"] = tofloat(C)
+        kw["C"] = forms.vary("C", C, flat_ok=(n == 1))
     if cross:
-        kw["N"] = tofloat(N)
+        kw["N"] = forms.vary("N", N, flat_ok=(k == 1))
     if T is not None:
         kw["T"] = T
-        kw["Rf"] = tofloat(Rf)
-    return LQ(tofloat(Q), tofloat(R), tofloat(A), tofloat(B), beta=float(beta), **kw)
+        kw["Rf"] = forms.vary("Rf", Rf, scalar_ok=False)
+    b = float(beta)
+    if b == 1.0 and forms.rng.random() < 0.5:
+        b = 1
+    lq = LQ(forms.vary("Q", Q), forms.vary("R", R), forms.vary("A", A), forms.vary("B", B, flat_ok=(n == 1)), beta=b, **kw)
+    # the instance must hold exactly the matrices that were meant (shape normalisation of every legal form)
+    want = {"Q": Q, "R": R, "A": A, "B": B, "C": C if C is not None else zeros(n, 1), "N": N if cross else zeros(k, n)}
+    for nm, Mx in want.items():
+        got = np.asarray(getattr(lq, nm))
+        if got.shape != (len(Mx), len(Mx[0])) or not np.array_equal(got, tofloat(Mx)):
+            forms.ctx.spec_fail("constructor_forms", "LQ(...) holds %s of shape %r != the %dx%d matrix passed" % (
+                nm, got.shape, len(Mx), len(Mx[0])), {"attr": nm, "passed": ratm(Mx), "held": repr(got.tolist())})
+    return lq
 
 
 def prob_of(lq):
@@ -470,7 +549,8 @@ def run(ctx):
         n, k = len(R), len(Q)
         T = ctx.rng.randint(1, 12) if it >= 2 else [1, 12][it]
         Rf = psd(ctx, n)
-        lq = make_lq(LQ, Q, R, A, B, C, N, beta, cross, T=T, Rf=Rf)
+        forms = Forms(ctx)
+        lq = make_lq(LQ, Q, R, A, B, C, N, beta, cross, T=T, Rf=Rf, forms=forms)
         pb = prob_of(lq)
         nt = (T >= 2)
         # state machine over T steps
@@ -493,8 +573,18 @@ def run(ctx):
                     ctx.spec_fail("update_values", "step %d of the backward recursion is not the Riccati update: %s" % (t, why),
                                   {"problem": pb.wire(), "Rf": ratm(Rf), "T": T, "step": t, "P_before": ratm(P0),
                                    "d_before": rat(d0), "got": upd_str(Fc, Pc, dc)})
-            if not np.allclose(Pc, Pc.T, atol=1e-9 * max(1.0, np.abs(Pc).max())):
-                ctx.spec_fail("update_symmetry", "P_t not symmetric", {"problem": pb.wire(), "step": t})
+            # update_values does not symmetrise: on unstable A the antisymmetric rounding error of P is amplified at
+            # every step (observed x10 per step; the recursion is useless beyond ~18 steps on such inputs). Measured;
+            # a finding only if listed (key update_asymmetry_growth) — inside T <= 12 it stays below the path envelope.
+            asym = float(np.abs(Pc - Pc.T).max()) / max(1.0, float(np.abs(Pc).max()))
+            if asym > 1e-9:
+                ctx.count("fin:asymmetry>1e-9")
+                if "update_asymmetry_growth" in ctx.known:
+                    ctx.spec_fail("update_asymmetry_growth", "P_t asymmetric by %.2e (relative) after %d updates" % (asym, t + 1),
+                                  {"problem": pb.wire(), "step": t})
+            if asym > ENV_PATH * 10:
+                ctx.spec_fail("update_symmetry", "P_t asymmetric by %.2e (relative) after %d <= 12 updates" % (asym, t + 1),
+                              {"problem": pb.wire(), "Rf": ratm(Rf), "T": T, "step": t})
         ctx.count("fin:steps", T)
         # whole trace from Rf
         impl_trace = "F=%s P=%s d=%s" % (showms([r[0] for r in recs]), showms([r[1] for r in recs]),
@@ -520,6 +610,8 @@ def run(ctx):
                 if why:
                     ctx.spec_fail("finite_optimum", "P_0 is not the value matrix of the T-period programme: " + why,
                                   {"problem": pb.wire(), "Rf": ratm(Rf), "T": T, "P0": fxm(recs[-1][1])})
+        if forms.changed():
+            ctx.spec_fail("inputs_modified", "LQ modified the caller's arrays %s" % forms.changed(), {"problem": pb.wire(), "T": T})
         # compute_sequence on recorded shocks
         for ts in ([None] if it % 3 else [None, max(1, T // 2), T + 3]):
             lq2 = make_lq(LQ, Q, R, A, B, C, N, beta, cross, T=T, Rf=Rf)
@@ -593,7 +685,8 @@ def run(ctx):
         n, k = len(R), len(Q)
         res = {}
         for method in ("doubling", "qz"):
-            lq = make_lq(LQ, Q, R, A, B, C, N, beta, cross)
+            forms = Forms(ctx)
+            lq = make_lq(LQ, Q, R, A, B, C, N, beta, cross, forms=forms)
             pb = prob_of(lq)
             try:
                 P, Fm, d = lq.stationary_values(method=method)
@@ -601,6 +694,14 @@ def run(ctx):
                 ctx.spec_fail("stationary_raises", "%s: %s on a controllable, positive definite problem" % (method, type(e).__name__),
                               {"problem": pb.wire(), "method": method})
                 continue
+            if forms.changed():
+                ctx.spec_fail("inputs_modified", "stationary_values modified the caller's arrays %s" % forms.changed(),
+                              {"problem": pb.wire(), "method": method})
+            for nm_, arr_ in (("P", P), ("F", Fm)):
+                for inm, iarr in forms.arrays():
+                    if isinstance(arr_, np.ndarray) and np.shares_memory(arr_, iarr):
+                        ctx.spec_fail("result_aliases", "stationary_values: %s shares memory with the input %s" % (nm_, inm),
+                                      {"problem": pb.wire(), "method": method})
             P, Fm, d = np.array(P, dtype=float), np.array(Fm, dtype=float), float(d)
             res[method] = (P, Fm, d)
             ctx.count("inf:" + method)
@@ -784,14 +885,49 @@ def run_histories(ctx, cases, LQ):
         finite = rng.random() < 0.7
         Q, R, A, B, C, N, beta, cross = gen_problem(ctx, need_beta_lt1=not finite)
         n, k = len(R), len(Q)
+        forms = Forms(ctx)
         if finite:
             T = rng.randint(1, 6)
             Rf = psd(ctx, n)
-            lq = make_lq(LQ, Q, R, A, B, C, N, beta, cross, T=T, Rf=Rf)
+            lq = make_lq(LQ, Q, R, A, B, C, N, beta, cross, T=T, Rf=Rf, forms=forms)
         else:
             T, Rf = 0, None
-            lq = make_lq(LQ, Q, R, A, B, C, N, beta, cross)
+            lq = make_lq(LQ, Q, R, A, B, C, N, beta, cross, forms=forms)
         pb = prob_of(lq)
+        kept = []      # every array a call returned: (label, call index, array, bytes at return, judge or None)
+
+        def audit(after):
+            """after call number `after`: every kept result still bitwise what was returned and still obeys its
+            oracle; kept path arrays of different calls, the inputs and the object's data do not alias; the
+            caller's inputs are bitwise unchanged"""
+            rep = {"problem": pb.wire(), "T": T, "Rf": ratm(Rf) if finite else None, "calls": kinds, "after_call": after}
+            for (lab, ci, arr, snap, judge) in kept:
+                if arr.tobytes() != snap:
+                    ctx.spec_fail("kept_result_overwritten", "%s returned by call %d was modified by call %d (history %s)"
+                                  % (lab, ci, after, "".join(kinds[:after + 1])), dict(rep, result=lab, call=ci))
+            seen = set()
+            for (lab, ci, arr, snap, judge) in kept:
+                if judge is not None and ci not in seen and ci != after:
+                    seen.add(ci)
+                    bad = judge()
+                    if bad:
+                        ctx.spec_fail("kept_result_rejudged", "the paths returned by call %d no longer obey the law of motion "
+                                      "after call %d: %s" % (ci, after, bad), dict(rep, call=ci))
+            attrs = [("lq." + nm, getattr(lq, nm)) for nm in ("Q", "R", "A", "B", "C", "N") if isinstance(getattr(lq, nm), np.ndarray)]
+            paths = [(lab, ci, arr) for (lab, ci, arr, _, _) in kept if lab[0] in "xuw"]
+            for a_i in range(len(paths)):
+                for b_i in range(a_i + 1, len(paths)):
+                    if np.shares_memory(paths[a_i][2], paths[b_i][2]):
+                        ctx.spec_fail("result_aliases", "%s of call %d and %s of call %d share memory" % (
+                            paths[a_i][0], paths[a_i][1], paths[b_i][0], paths[b_i][1]), rep)
+                for nm, arr in forms.arrays() + attrs:
+                    if np.shares_memory(paths[a_i][2], arr):
+                        ctx.spec_fail("result_aliases", "%s of call %d shares memory with %s" % (paths[a_i][0], paths[a_i][1], nm), rep)
+            ch = forms.changed()
+            if ch:
+                ctx.spec_fail("inputs_modified", "caller's arrays %s were modified" % ch, rep)
+            ctx.count("hist:audits")
+
         ncalls = rng.randint(2, 5)
         kinds = []
         for c in range(ncalls):
@@ -802,9 +938,14 @@ def run_histories(ctx, cases, LQ):
                 kinds.append("u" if r < 0.35 else ("q" if r < 0.85 else "s"))
         if "q" not in kinds[1:]:
             kinds[-1] = "q"                                 # a compute_sequence with a non-trivial past
+        force_ts = None
+        if it < 4:                                          # always present: two equal-length simulations, results kept
+            kinds = ["q", "q"] if it % 2 == 0 else ["q", "u", "q"] if finite else ["q", "s", "q"]
+            force_ts = "pool"
         chain = 0
         longest = 0
         max_te = 0
+        ts_pool = rng.randint(1, 8)        # repeated lengths: equal-length calls on one object
         req_r, req_f, impl = [], [], []
         for i, kd in enumerate(kinds):
             P_before = None if lq.P is None else fm(lq.P)
@@ -832,17 +973,23 @@ def run_histories(ctx, cases, LQ):
                     impl.append(state_str(i, lq))
                     ctx.count("hist:stationary")
                 else:
-                    ts = rng.choice([None, None, rng.randint(1, 8)])
+                    ts = rng.choice([None, None, ts_pool, rng.randint(1, 8)])
+                    if force_ts:
+                        ts = ts_pool if (not finite or it >= 2) else None
                     Te = (T if not ts else min(ts, T)) if finite else (ts if ts else 100)
                     if not finite and ts is None and rng.random() < 0.7:
-                        ts = rng.randint(1, 8)
+                        ts = ts_pool
                         Te = ts
                     max_te = max(max_te, Te)
                     W = [[F(rng.randint(-8, 8), 4) for _ in range(Te + 1)] for _ in range(lq.j)]
                     x0 = [[F(rng.randint(-4, 4), 2)] for _ in range(n)]
                     was_none = lq.P is None
-                    xp, up, wp = lq.compute_sequence(np.array([float(v[0]) for v in x0]), ts_length=ts,
-                                                     random_state=FixedNormals(tofloat(W)))
+                    x0_arg = rng.choice(["1d", "col", "list"] + (["scalar"] if n == 1 else []))
+                    x0_in = {"1d": np.array([float(v[0]) for v in x0]), "col": tofloat(x0),
+                             "list": [float(v[0]) for v in x0], "scalar": float(x0[0][0])}[x0_arg]
+                    if isinstance(x0_in, np.ndarray):
+                        forms.inputs.append(("x0(call %d)" % i, x0_in, x0_in.tobytes()))
+                    xp, up, wp = lq.compute_sequence(x0_in, ts_length=ts, random_state=FixedNormals(tofloat(W)))
                     chain = Te if finite else chain
                     extra_r = extra_f = ""
                     if was_none:
@@ -853,55 +1000,60 @@ def run_histories(ctx, cases, LQ):
                     impl.append("%s x%d=%s u%d=%s" % (state_str(i, lq), i, showms([colm(xp[:, t]) for t in range(xp.shape[1])]),
                                                       i, showms([colm(up[:, t]) for t in range(up.shape[1])])))
                     ctx.count("hist:sequence-%s-%s" % ("finite" if finite else "infinite", "fresh" if i == 0 else "after-calls"))
-                    # ---- spec: judged independently of the object's history ----
-                    bad = None
-                    xs = [fm(colm(xp[:, t])) for t in range(xp.shape[1])]
-                    us = [fm(colm(up[:, t])) for t in range(up.shape[1])]
-                    if xp.shape != (n, Te + 1) or up.shape != (k, Te):
-                        bad = "shapes %r %r" % (xp.shape, up.shape)
-                    elif finite:
-                        ch = exact_chain(pb, Rf, Te)
-                        if ch is not None:
-                            for t in range(Te):
-                                w = close_m(us[t], scal(F(-1), mm(ch[Te - 1 - t][0], xs[t])), ENV_PATH)
-                                if w:
-                                    bad = "u_%d is not -F_%d x_%d of the %d-period programme: %s" % (t, t, t, Te, w)
-                                    break
-                                nxt = madd(madd(mm(pb.A, xs[t]), mm(pb.B, us[t])), mm(pb.C, [[W[r_][t + 1]] for r_ in range(lq.j)]))
-                                w = close_m(xs[t + 1], nxt, ENV_PATH)
-                                if w:
-                                    bad = "x_%d: %s" % (t + 1, w)
-                                    break
-                            if not bad:
-                                w = close_m(fm(lq.P), ch[-1][1], ENV_PATH)
-                                if not w and abs(F(float(lq.d)) - ch[-1][2]) > F(ENV_PATH) * max(1, abs(ch[-1][2])):
-                                    w = "d=%r, programme %.12g" % (lq.d, float(ch[-1][2]))
-                                if w:
-                                    bad = "(P, d) left in the object is not the value of the %d-period programme: %s" % (Te, w)
-                            if not bad and Te * k <= 8 and n <= 3:
-                                P_qp = qp_value_matrix(pb, fm(tofloat(Rf)), Te)
-                                if P_qp is not None:
-                                    ctx.count("hist:qp-oracle")
-                                    w = close_m(fm(lq.P), P_qp, ENV_PATH)
-                                    if w:
-                                        bad = "P left in the object is not the value matrix of the stacked programme: " + w
-                    else:
-                        Fq = fm(lq.F)
+                    # ---- spec: judged independently of the object's history; the judge is kept and re-run later ----
+                    ch = exact_chain(pb, Rf, Te) if finite else None
+                    Fq_now = None if finite else fm(lq.F)
+
+                    def judge(xp=xp, up=up, wp=wp, Te=Te, W=W, x0=x0, ch=ch, Fq_now=Fq_now):
+                        if xp.shape != (n, Te + 1) or up.shape != (k, Te) or wp.shape != (lq.j, Te + 1):
+                            return "shapes %r %r %r" % (xp.shape, up.shape, wp.shape)
+                        if not np.array_equal(wp, tofloat(W)):
+                            return "w_path is not the drawn shocks"
+                        xs = [fm(colm(xp[:, t])) for t in range(Te + 1)]
+                        us = [fm(colm(up[:, t])) for t in range(Te)]
+                        if close_m(xs[0], x0, 0):
+                            return "x_0 != x0"
+                        if finite and ch is None:
+                            return None
                         for t in range(Te):
-                            w = close_m(us[t], scal(F(-1), mm(Fq, xs[t])), ENV_PATH)
+                            Ft = ch[Te - 1 - t][0] if finite else Fq_now
+                            w = close_m(us[t], scal(F(-1), mm(Ft, xs[t])), ENV_PATH)
                             if w:
-                                bad = "u_%d != -F x_%d: %s" % (t, t, w)
-                                break
+                                return "u_%d is not -F_%d x_%d%s: %s" % (t, t, t, " of the %d-period programme" % Te if finite else "", w)
                             nxt = madd(madd(mm(pb.A, xs[t]), mm(pb.B, us[t])), mm(pb.C, [[W[r_][t + 1]] for r_ in range(lq.j)]))
                             w = close_m(xs[t + 1], nxt, ENV_PATH)
                             if w:
-                                bad = "x_%d: %s" % (t + 1, w)
-                                break
+                                return "x_%d != A x + B u + C w: %s" % (t + 1, w)
+                        return None
+
+                    bad = judge()
+                    if not bad and finite and ch is not None:
+                        w = close_m(fm(lq.P), ch[-1][1], ENV_PATH)
+                        if not w and abs(F(float(lq.d)) - ch[-1][2]) > F(ENV_PATH) * max(1, abs(ch[-1][2])):
+                            w = "d=%r, programme %.12g" % (lq.d, float(ch[-1][2]))
+                        if w:
+                            bad = "(P, d) left in the object is not the value of the %d-period programme: %s" % (Te, w)
+                        if not bad and Te * k <= 8 and n <= 3:
+                            P_qp = qp_value_matrix(pb, fm(tofloat(Rf)), Te)
+                            if P_qp is not None:
+                                ctx.count("hist:qp-oracle")
+                                w = close_m(fm(lq.P), P_qp, ENV_PATH)
+                                if w:
+                                    bad = "P left in the object is not the value matrix of the stacked programme: " + w
                     if bad:
                         ctx.spec_fail("hist_compute_sequence", "call %d of the history %s on one %s-horizon object: %s"
                                       % (i, "".join(kinds), "finite" if finite else "infinite", bad),
                                       {"problem": pb.wire(), "T": T, "Rf": ratm(Rf) if finite else None, "calls": kinds,
                                        "call": i, "ts": ts, "x0": ratm(x0), "W": ratm(W)})
+                    kept.append(("x_path", i, xp, xp.tobytes(), judge))
+                    kept.append(("u_path", i, up, up.tobytes(), None))
+                    kept.append(("w_path", i, wp, wp.tobytes(), None))
+                # the value-function attributes as they are now (a later call must rebind, not overwrite, them)
+                for nm in ("P", "F"):
+                    v_ = getattr(lq, nm)
+                    if isinstance(v_, np.ndarray) and v_.ndim == 2:
+                        kept.append(("lq.%s after call" % nm, i, v_, v_.tobytes(), None))
+                audit(i)
             except (np.linalg.LinAlgError, ValueError, TypeError) as e:
                 impl.append("E%d=%s" % (i, "LinAlgError" if isinstance(e, np.linalg.LinAlgError) else type(e).__name__))
                 ctx.count("hist:raised-" + type(e).__name__)
@@ -932,7 +1084,14 @@ def run_rblq(ctx, cases, RBLQ, LQ):
         if beta == 1:
             beta = F(15, 16)
         theta = F(ctx.rng.choice([50, 100, 200, 1000]))
-        rb = RBLQ(tofloat(Q), tofloat(R), tofloat(A), tofloat(B), tofloat(C), float(beta), float(theta))
+        forms = Forms(ctx)
+        rb = RBLQ(forms.vary("Q", Q), forms.vary("R", R), forms.vary("A", A), forms.vary("B", B, flat_ok=(n == 1)),
+                  forms.vary("C", C, flat_ok=(n == 1)), float(beta), float(theta) if ctx.rng.random() < 0.7 else int(theta))
+        for nm_, Mx_ in (("Q", Q), ("R", R), ("A", A), ("B", B), ("C", C)):
+            got_ = np.asarray(getattr(rb, nm_))
+            if got_.shape != (len(Mx_), len(Mx_[0])) or not np.array_equal(got_.astype(float), tofloat(Mx_)):
+                ctx.spec_fail("constructor_forms", "RBLQ(...) holds %s of shape %r != the matrix passed" % (nm_, got_.shape),
+                              {"attr": nm_, "passed": ratm(Mx_)})
         pb = Prob(Q, R, A, B, C, zeros(k, n), beta)
         P = psd(ctx, n)
         P = scal(F(1, 4), P)
@@ -970,6 +1129,8 @@ def run_rblq(ctx, cases, RBLQ, LQ):
             ctx.count("rblq:near-breakdown-skipped")
             continue
         ctx.count("rblq:solved")
+        if forms.changed():
+            ctx.spec_fail("inputs_modified", "RBLQ modified the caller's arrays %s" % forms.changed(), {"problem": pb.wire()})
         why = close_m(fm(F1), fm(F2), ENV_AGREE) or close_m(fm(P1), fm(P2), ENV_AGREE) or close_m(fm(K1), fm(K2), ENV_AGREE)
         if why:
             ctx.spec_fail("rblq_methods", "robust_rule and robust_rule_simple disagree: " + why,
@@ -1021,9 +1182,19 @@ def run_rblq(ctx, cases, RBLQ, LQ):
 
 def run_nnash(ctx, cases, nnash, LQ):
     rng = ctx.rng
-    for it in range(ctx.n(6, 80)):
+    # documented form the clean code does not accept: scalar A (A.shape[0] on a 0-d array)
+    try:
+        nnash(0.5, 1.0, 1.0, 1.0, 1.0, 1.0, 1.0, 0.0, 0.0, 0.0, 0.0, 0.0, 0.0)
+        ctx.count("nnash:scalar-A-ok")
+    except Exception as e:  # noqa: BLE001
+        ctx.count("nnash:scalar-A-raises-" + type(e).__name__)
+        if "nnash_scalar_A" in ctx.known:
+            ctx.spec_fail("nnash_scalar_A", "nnash raises on scalar A although the docstring allows scalars", {})
+    for it in range(ctx.n(10, 120)):
         n = rng.randint(1, 3)
-        k1, k2 = rng.randint(1, 2), rng.randint(1, 2)
+        k1, k2 = rng.choice([1, 1, 2]), rng.choice([1, 1, 2])
+        if it < 6:
+            k1, k2 = 1, (1 if it % 2 else 2)
         sm = lambda r, c: [[F(rng.choice([-1, 0, 0, 1, 1]), 4) for _ in range(c)] for _ in range(r)]
         A = [[F(rng.choice([-1, 0, 1, 1, 2]), 4) for _ in range(n)] for _ in range(n)]
         B1 = [[F(rng.choice([0, 1, 1, 2]), 2) for _ in range(k1)] for _ in range(n)]
@@ -1034,30 +1205,68 @@ def run_nnash(ctx, cases, nnash, LQ):
         S1, S2 = madd(S1, tr(S1)), madd(S2, tr(S2))
         W1, W2 = sm(n, k1), sm(n, k2)
         M1, M2 = sm(k2, k1), sm(k1, k2)
-        beta = F(rng.choice([1, 1, F(3, 4), F(1, 4)]))   # sqrt(beta) dyadic: 1, 1/2 exact; 3/4 not
-        args = [tofloat(x) for x in (A, B1, B2, R1, R2, Q1, Q2, S1, S2, W1, W2, M1, M2)]
+        beta = rng.choice([1.0, 0.95, 0.5, 0.75, 0.25])
+        force_flat = None
+        if it < 6:      # always present: beta in {1, 0.95, 0.5} x (flat, 2-D) B_i with one-control players
+            beta = [0.5, 0.95, 1.0][it % 3]
+            force_flat = it < 3
+        canon = (A, B1, B2, R1, R2, Q1, Q2, S1, S2, W1, W2, M1, M2)
+        args = [tofloat(x) for x in canon]
+        # ---- argument forms: flat 1-D B_i for a one-control player, scalars for 1x1, orders, dtypes, lists ----
+        forms = Forms(ctx)
+        flat = [False, False]
+        call = []
+        for nm, Mx in zip(("A", "B1", "B2", "R1", "R2", "Q1", "Q2", "S1", "S2", "W1", "W2", "M1", "M2"), canon):
+            if nm in ("B1", "B2") and len(Mx[0]) == 1 and (rng.random() < 0.6 if force_flat is None else force_flat):
+                v = np.array([float(r_[0]) for r_ in Mx])
+                if rng.random() < 0.3:
+                    v = v.astype(np.int64) if np.all(v == np.round(v)) else v.astype(np.float32) if np.all(
+                        v.astype(np.float32).astype(float) == v) else v
+                if rng.random() < 0.25:
+                    call.append([float(x_) for x_ in v])
+                else:
+                    forms.inputs.append((nm, v, v.tobytes()))
+                    call.append(v)
+                flat[int(nm[1]) - 1] = True
+                ctx.count("nnash:flat-B")
+            else:
+                call.append(forms.vary(nm, Mx, scalar_ok=(nm not in ("A", "B1", "B2"))))
+        ctx.count("nnash:beta<1" if beta < 1 else "nnash:beta=1")
+        if beta < 1 and (flat[0] or flat[1]):
+            ctx.count("nnash:beta<1-and-flat-B")
+        rep = {"args": [ratm(v) for v in canon], "beta": repr(beta), "flat_B": flat}
         try:
-            F1, F2, P1, P2 = nnash(*args, beta=float(beta), tol=1e-13, max_iter=3000)
+            F1, F2, P1, P2 = nnash(*call, beta=beta, tol=1e-13, max_iter=3000)
         except Exception as e:  # noqa: BLE001
             ctx.count("nnash:raised-" + type(e).__name__)
             continue
         ctx.count("nnash:solved")
-        sb = math.sqrt(float(beta))
-        As, B1s, B2s = sb * args[0], sb * args[1], sb * args[2]
+        first = [(nm, arr, np.array(arr).tobytes()) for nm, arr in (("F1", F1), ("F2", F2), ("P1", P1), ("P2", P2))]
+        sb = float(np.sqrt(beta))
+        keys = ("A", "B1", "B2", "R1", "R2", "Q1", "Q2", "S1", "S2", "W1", "W2", "M1", "M2")
+        vals = [A, tr(B1) if flat[0] else B1, tr(B2) if flat[1] else B2, R1, R2, Q1, Q2, S1, S2, W1, W2, M1, M2]
+        gline = " ".join("%s=%s" % (kk, ratm(v)) for kk, v in zip(keys, vals)) + " sb=%s flat1=%d flat2=%d" % (
+            rat(F(sb)), int(flat[0]), int(flat[1]))
         # model: one pass of the loop at the returned (P1, P2) reproduces the returned feedbacks (the loop stops on
         # the feedbacks only, so the returned P1, P2 need not be stationary; they are not compared here)
-        keys = ("A", "B1", "B2", "R1", "R2", "Q1", "Q2", "S1", "S2", "W1", "W2", "M1", "M2")
-        vals = [fm(As), fm(B1s), fm(B2s)] + [R1, R2, Q1, Q2, S1, S2, W1, W2, M1, M2]
-        gline = " ".join("%s=%s" % (kk, ratm(v)) for kk, v in zip(keys, vals))
         cases.append(Case("C07 rat nnash %s iters=1 P1=%s P2=%s" % (gline, ratm(fm(P1)), ratm(fm(P2))),
                           "F1=%s F2=%s P1=%s P2=%s" % (fxm(F1), fxm(F2), fxm(P1), fxm(P2)),
                           cmp=cmp_fields(ENV_FIX, matrix_keys=("F1", "F2")), tag="nnash-fixed-point"))
         # model: with tol=inf the loop makes exactly two passes from P1=P2=0 (dd is inf in the first pass because
         # F10 = inf): a step-level comparison of all four outputs
-        G1, G2, Pa, Pb = nnash(*args, beta=float(beta), tol=np.inf, max_iter=5)
+        G1, G2, Pa, Pb = nnash(*call, beta=beta, tol=np.inf, max_iter=5)
         cases.append(Case("C07 rat nnash %s iters=2 P1=%s P2=%s" % (gline, ratm(zeros(n, n)), ratm(zeros(n, n))),
                           "F1=%s F2=%s P1=%s P2=%s" % (fxm(G1), fxm(G2), fxm(Pa), fxm(Pb)),
                           cmp=cmp_fields(ENV, matrix_keys=("F1", "F2", "P1", "P2")), tag="nnash-2-passes"))
+        # kept results of the first call and the caller's inputs after the second call
+        for nm, arr, snap in first:
+            if np.array(arr).tobytes() != snap:
+                ctx.spec_fail("kept_result_overwritten", "nnash: %s of an earlier call was modified by a later call" % nm, rep)
+            for inm, iarr in forms.arrays():
+                if isinstance(arr, np.ndarray) and np.shares_memory(arr, iarr):
+                    ctx.spec_fail("result_aliases", "nnash: %s shares memory with the input %s" % (nm, inm), rep)
+        if forms.changed():
+            ctx.spec_fail("inputs_modified", "nnash modified the caller's arrays %s" % forms.changed(), rep)
         # spec: F1 is the LQ best response to F2 and vice versa (through LQ.stationary_values, itself checked above)
         for (me, Fo, Bm, Bo, Rm, Qm, Sm, Wm, Mm, Fme) in (
                 (1, F2, args[1], args[2], args[3], args[5], args[7], args[9], args[11], F1),
@@ -1069,6 +1278,11 @@ def run_nnash(ctx, cases, nnash, LQ):
             try:
                 lq = LQ(Qm, Rbr, Acl, Bm, N=Nbr, beta=float(beta))
                 Pbr, Fbr, _ = lq.stationary_values()
+                # ... and exactly: (F_me, P_br) must be a fixed point of the exact Riccati update of that problem
+                pbr = prob_of(lq)
+                ex = pbr.update(fm(Pbr), F(0))
+                if ex is not None and close_m(ex[0], fm(Fbr), ENV_FIX):
+                    ctx.count("nnash:br-oracle-not-stationary")
             except Exception as e:  # noqa: BLE001
                 ctx.count("nnash:br-raised-" + type(e).__name__)
                 continue
@@ -1076,7 +1290,7 @@ def run_nnash(ctx, cases, nnash, LQ):
             why = close_m(fm(Fme), fm(Fbr), ENV_AGREE)
             if why:
                 ctx.spec_fail("nnash_best_response", "F%d is not the LQ best response to the other player: %s" % (me, why),
-                              {"args": [ratm(v) for v in (A, B1, B2, R1, R2, Q1, Q2, S1, S2, W1, W2, M1, M2)], "beta": rat(beta)})
+                              rep)
 
 
 # ----------------------------------------------------------------------------------------------
@@ -1108,13 +1322,17 @@ def run_markov(ctx, cases, LQMarkov, LQ):
         args = dict(Qs=[tofloat(p[0]) for p in probs], Rs=[tofloat(p[1]) for p in probs], As=[tofloat(p[2]) for p in probs],
                     Bs=[tofloat(p[3]) for p in probs], Cs=[tofloat(p[4]) for p in probs], Ns=[tofloat(p[5]) for p in probs])
         try:
-            lqm = LQMarkov(tofloat(Pi), args["Qs"], args["Rs"], args["As"], args["Bs"], Cs=args["Cs"], Ns=args["Ns"],
-                           beta=float(beta))
+            forms = Forms(ctx)
+            vv = lambda nm_, idx: [forms.vary("%s[%d]" % (nm_, s_), p_[idx], flat_ok=False) for s_, p_ in enumerate(probs)]
+            lqm = LQMarkov(forms.vary("Pi", Pi, scalar_ok=False, int_ok=False), vv("Qs", 0), vv("Rs", 1), vv("As", 2), vv("Bs", 3),
+                           Cs=vv("Cs", 4), Ns=vv("Ns", 5), beta=float(beta))
             Ps, ds, Fs = lqm.stationary_values()
         except Exception as e:  # noqa: BLE001
             ctx.count("markov:raised-" + type(e).__name__)
             continue
         ctx.count("markov:identical" if identical else "markov:distinct")
+        if forms.changed():
+            ctx.spec_fail("inputs_modified", "LQMarkov modified the caller's arrays %s" % forms.changed(), {"beta": rat(beta)})
         line = "C07 rat markov m=%d Pi=%s beta=%s " % (m, ratm(Pi), rat(beta)) + " ".join(
             "Q%d=%s R%d=%s A%d=%s B%d=%s C%d=%s N%d=%s P%d=%s" % (s, ratm(p[0]), s, ratm(p[1]), s, ratm(p[2]), s, ratm(p[3]),
                                                                 s, ratm(p[4]), s, ratm(p[5]), s, ratm(fm(Ps[s])))
